@@ -30,22 +30,23 @@ inductive Step
   | hit (cablen foffset : Nat)
 
 /-- one iteration of `switch (state)` consuming byte `b`.  (State 0's inner `while` skipping
-    non-`M` bytes is the same thing byte by byte.) -/
+    non-`M` bytes is the same thing byte by byte.  The C assembles the two 32-bit fields with
+    `|= byte << k` into zeroed disjoint bit ranges, which is `+ byte * 2^k`.) -/
 def scanByte (s : ScanSt) (b : UInt8) : Step :=
   let v := b.toNat
   match s.state with
   | 0  => .cont { s with state := if v = 0x4D then 1 else 0 }
-  | 1  => .cont { s with state := if v = 0x53 then 2 else 0 }
-  | 2  => .cont { s with state := if v = 0x43 then 3 else 0 }
-  | 3  => .cont { s with state := if v = 0x46 then 4 else 0 }
+  | 1  => .cont { s with state := if v = 0x53 then 2 else if v = 0x4D then 1 else 0 }
+  | 2  => .cont { s with state := if v = 0x43 then 3 else if v = 0x4D then 1 else 0 }
+  | 3  => .cont { s with state := if v = 0x46 then 4 else if v = 0x4D then 1 else 0 }
   | 8  => .cont { s with state := 9,  cablen := v }
-  | 9  => .cont { s with state := 10, cablen := s.cablen ||| (v <<< 8) }
-  | 10 => .cont { s with state := 11, cablen := s.cablen ||| (v <<< 16) }
-  | 11 => .cont { s with state := 12, cablen := s.cablen ||| (v <<< 24) }
+  | 9  => .cont { s with state := 10, cablen := s.cablen + v * 256 }
+  | 10 => .cont { s with state := 11, cablen := s.cablen + v * 65536 }
+  | 11 => .cont { s with state := 12, cablen := s.cablen + v * 16777216 }
   | 16 => .cont { s with state := 17, foffset := v }
-  | 17 => .cont { s with state := 18, foffset := s.foffset ||| (v <<< 8) }
-  | 18 => .cont { s with state := 19, foffset := s.foffset ||| (v <<< 16) }
-  | 19 => .hit s.cablen (s.foffset ||| (v <<< 24))
+  | 17 => .cont { s with state := 18, foffset := s.foffset + v * 256 }
+  | 18 => .cont { s with state := 19, foffset := s.foffset + v * 65536 }
+  | 19 => .hit s.cablen (s.foffset + v * 16777216)
   | n  => .cont { s with state := n + 1 }
 
 /-- inner loop over one buffer whose first byte sits at file position `pos` -/
